@@ -286,7 +286,7 @@ class Duration(metaclass=_DurationMeta):
         It represents the complete duration in days, rather than only the whole number of
         days. For example, for a duration of 36 hours, this property would return 1.5.
         """
-        return self.__days + self.__nano_of_day / PyodaConstants.NANOSECONDS_PER_DAY
+        return self.to_nanoseconds() / PyodaConstants.NANOSECONDS_PER_DAY
 
     @property
     def total_hours(self) -> float:
@@ -298,7 +298,7 @@ class Duration(metaclass=_DurationMeta):
         of 1 day, 2 hours and 30 minutes, the ``hours`` property will return 2, but ``total_hours``
         will return 26.5.
         """
-        return self.__days * 24.0 + self.__nano_of_day / PyodaConstants.NANOSECONDS_PER_HOUR
+        return self.to_nanoseconds() / PyodaConstants.NANOSECONDS_PER_HOUR
 
     @property
     def total_minutes(self) -> float:
@@ -310,7 +310,7 @@ class Duration(metaclass=_DurationMeta):
         of 2 hours, 30 minutes and 45 seconds, the ``minutes`` property will return 30, but ``total_minutes``
         will return 150.75.
         """
-        return self.__days * PyodaConstants.MINUTES_PER_DAY + self.__nano_of_day / PyodaConstants.NANOSECONDS_PER_MINUTE
+        return self.to_nanoseconds() / PyodaConstants.NANOSECONDS_PER_MINUTE
 
     @property
     def total_seconds(self) -> float:
@@ -322,7 +322,7 @@ class Duration(metaclass=_DurationMeta):
         of 10 minutes, 20 seconds and 250 milliseconds, the ``seconds`` property will return 20, but ``total_seconds``
         will return 620.25.
         """
-        return self.__days * PyodaConstants.SECONDS_PER_DAY + self.__nano_of_day / PyodaConstants.NANOSECONDS_PER_SECOND
+        return self.to_nanoseconds() / PyodaConstants.NANOSECONDS_PER_SECOND
 
     @property
     def total_milliseconds(self) -> float:
@@ -334,10 +334,7 @@ class Duration(metaclass=_DurationMeta):
         of 10 minutes, 20 seconds and 250 milliseconds, the ``milliseconds`` property will return
         250, but ``total_milliseconds`` will return 620250.
         """
-        return (
-            self.__days * PyodaConstants.MILLISECONDS_PER_DAY
-            + self.__nano_of_day / PyodaConstants.NANOSECONDS_PER_MILLISECOND
-        )
+        return self.to_nanoseconds() / PyodaConstants.NANOSECONDS_PER_MILLISECOND
 
     @property
     def total_microseconds(self) -> float:
@@ -350,7 +347,7 @@ class Duration(metaclass=_DurationMeta):
 
         This property is the ``Duration`` equivalent of ``TimeSpan.Ticks``.
         """
-        return self.__days * PyodaConstants.TICKS_PER_DAY + self.__nano_of_day / PyodaConstants.NANOSECONDS_PER_TICK
+        return self.to_nanoseconds() / PyodaConstants.NANOSECONDS_PER_TICK
 
     @property
     def total_nanoseconds(self) -> float:
